@@ -2654,7 +2654,38 @@ def corr_parts(ctx, na, nb, nd=0):
     part_d_finish(ctx, id_, outs[len(ia) + len(ib):])
 
 
+def fixed_corpus(ctx):
+    """deterministic inputs of the listed findings the random parts do not reach on every quick run, judged by judge_other
+    like any other case (no ctx.rng / ctx.np_rng use, no Lean lines: TAIL_QUEUE is None here; the legacy np.random state
+    that call_other seeds is put back afterwards)"""
+    assert TAIL_QUEUE is None
+    state = np.random.get_state()
+    try:
+        # evolution-k1-transposed-pattern: k = 1, no symmetrisation, structurally nonsymmetric pattern ((3,0),(2,1) have no
+        # transposed partner), as CSR and as BSR with 1x1 blocks
+        M = np.array([[4.0, -1, 0, 0], [-1, 4, -1, 0], [0, 0, 4, -1], [-1, 0, -1, 4]])
+        for fmt, eps, proj, B in (('csr', 4.0, 'l2', 'ones'), ('csr', np.inf, 'D_A', 'none'), ('bsr', 4.0, 'D_A', 'ones')):
+            if fmt == 'bsr':
+                A = sp.bsr_array(M, blocksize=(1, 1))
+                A.indptr = A.indptr.astype(np.int32)
+                A.indices = A.indices.astype(np.int32)
+            else:
+                A = gen.int32csr(sp.csr_array(M))
+            ctx.feat('fixed_corpus:evolution-k1')
+            judge_other(ctx, A, 'evolution', {'npseed': 1, 'epsilon': eps, 'k': 1, 'proj_type': proj, 'symmetrize_measure': False,
+                                              'block_flag': False, 'B': B})
+        # affinity-zero-test-vector: row 0 stores only its diagonal entry, so with alpha = 1.0 one Jacobi sweep on A x = 0
+        # makes x[0] exactly 0; row 1 references column 0 -> 0/0 in the affinity formula
+        A = gen.int32csr(sp.csr_array(np.array([[2.0, 0, 0], [-1, 4, -1], [0, -1, 4]])))
+        for R, k in ((1, 1), (3, 5)):
+            ctx.feat('fixed_corpus:affinity-zero-row')
+            judge_other(ctx, A, 'affinity', {'npseed': 7, 'alpha': 1.0, 'R': R, 'k': k, 'epsilon': 2.0})
+    finally:
+        np.random.set_state(state)
+
+
 def run(ctx):
+    fixed_corpus(ctx)
     corr_parts(ctx, ctx.scale(900, 40000), ctx.scale(130, 6500), ctx.scale(300, 13000))
     run_part_e(ctx, ctx.scale(240, 8000))
     run_part_f(ctx, ctx.scale(45, 2400), ctx.scale(90, 3000))
